@@ -7,6 +7,7 @@ job = {mode "trim"|"crop", H, W,
        scale  real value of code v is v*scale (default 1)
        list   integer codes of trim's `values` / crop's `zones_ids`; null = call trim with its default
        list_kind "list" | "tuple";  list_float: force python floats in the list
+       table  optional: rank mode - real value of code c is table[c] (exact python ints, e.g. 2**53 + 1)
        ys, xs integer coordinates, dims [ydim, xdim], layout "C" | "F" | "view", tag}
 The values raster of crop carries a distinct id per cell (float64), so a window is identified by its cells.
 """
@@ -40,7 +41,11 @@ def lay(a, layout):
     return np.ascontiguousarray(a)
 
 
-def decode(codes, dtype, scale):
+def decode(codes, dtype, scale, table=None):
+    if table is not None:
+        # rank mode: the real value of code c is table[c] (python ints: exact 64-bit integers)
+        flat = [table[c] for row in codes for c in row]
+        return np.array(flat, dtype=dtype).reshape(len(codes), len(codes[0]))
     a = np.array(codes, dtype=np.float64)
     nan = a == NAN
     a = a * scale
@@ -52,7 +57,10 @@ def decode(codes, dtype, scale):
     return np.round(a).astype(dtype)
 
 
-def encode(arr, scale):
+def encode(arr, scale, table=None):
+    if table is not None:
+        inv = {v: c for c, v in enumerate(table)}
+        return [[inv.get(int(v), BAD) for v in row] for row in np.asarray(arr).tolist()]
     out = []
     for row in np.asarray(arr, dtype=np.float64):
         o = []
@@ -94,7 +102,8 @@ def run_job(j):
     scale = j.get("scale", 1)
     dims = j.get("dims") or ["y", "x"]
     layout = j.get("layout", "C")
-    data = lay(decode(j["data"], j["dtype"], scale), layout)
+    table = j.get("table")
+    data = lay(decode(j["data"], j["dtype"], scale, table), layout)
     attrs = {"res": (1.0, 2.0), "nodata": -1, "note": "c18"}
     # the raster that is sliced carries, besides its two index coordinates, a scalar coordinate and a
     # non-index coordinate along y: all of them belong to "the coordinates of the original"
@@ -118,7 +127,8 @@ def run_job(j):
     if lst is None:
         args = None
     else:
-        args = [pyval(c, scale, j.get("list_float", False)) for c in lst]
+        args = [table[c] for c in lst] if table is not None else \
+            [pyval(c, scale, j.get("list_float", False)) for c in lst]
         if j.get("list_kind") == "tuple":
             args = tuple(args)
     try:
@@ -144,7 +154,7 @@ def run_job(j):
         case["scan"] = [int(v) for v in scan]
         case["out"] = {
             "h": int(o.shape[0]), "w": int(o.shape[1]),
-            "cells": encode(o, cscale) if o.size else [],
+            "cells": encode(o, cscale, table if mode == "trim" else None) if o.size else [],
             "ys": [int(v) if float(v) == int(v) else BAD for v in out.coords[dims[0]].values] if dims[0] in out.coords else [],
             "xs": [int(v) if float(v) == int(v) else BAD for v in out.coords[dims[1]].values] if dims[1] in out.coords else [],
             "attrs_ok": bool(dict(out.attrs) == attrs),
